@@ -243,7 +243,7 @@ class Stmt:
 
 class Callee:
     __slots__ = ("j", "name", "res_name", "def_id", "res_id", "trait", "self_ty", "impl_self", "res_kind",
-                 "local", "res_local", "args", "indirect", "closure")
+                 "local", "res_local", "args", "indirect", "closure", "qual")
 
     def __init__(self, j):
         self.j = j
@@ -260,8 +260,14 @@ class Callee:
         self.res_local = j.get("res_local", False)
         self.args = j.get("args")
         self.closure = j.get("closure")
+        # inherent impl method: `path::to::Type::method` even when the impl block lives in another module
+        self.qual = None
+        if self.impl_self and self.name:
+            self.qual = strip_generics(re.sub(r"^&(?:'\w+ )?(?:mut )?", "", self.impl_self)) + "::" + self.name.split("::")[-1]
 
     def best_name(self):
+        if self.qual and (self.res_name is None or self.res_name == self.name):
+            return self.qual
         return self.res_name or self.name or ("<indirect %s>" % self.indirect)
 
     def method(self):
@@ -271,7 +277,7 @@ class Callee:
     def is_(self, *suffixes):
         """True if the (resolved or declared) callee path ends with one of the suffixes."""
         for s in suffixes:
-            if path_endswith(self.res_name, s) or path_endswith(self.name, s):
+            if path_endswith(self.res_name, s) or path_endswith(self.name, s) or path_endswith(self.qual, s):
                 return True
         return False
 
@@ -584,7 +590,7 @@ class Mir:
 
 
 class Body:
-    def __init__(self, j):
+    def __init__(self, j, loader=None):
         self.id = j["id"]
         self.name = j["name"]
         self.sname = strip_generics(j["name"])
@@ -606,25 +612,56 @@ class Body:
         self.output = j.get("output")
         self.vis = j.get("vis")
         self.asyncness = j.get("asyncness", False)
-        self._j = j
+        # light summary (computed once at index time)
+        self.sum_calls = j.get("sum_calls", ())      # callee names (resolved + declared), generics stripped
+        self.sum_writes = j.get("sum_writes", ())    # (adt, field) written
+        self.sum_aggs = j.get("sum_aggs", ())        # "adt::Variant" aggregates built
+        self.sum_edges = j.get("sum_edges", ())      # call-graph successors (body ids)
+        self._j = j if "mir" in j else None
+        self._loader = loader
         self._mir = None
         self._prom = None
         self.children = []  # closures / coroutines defined inside
 
+    def _full(self):
+        if self._j is None:
+            self._j = self._loader(self.id)
+        return self._j
+
     @property
     def mir(self):
         if self._mir is None:
-            self._mir = Mir(self._j["mir"])
+            self._mir = Mir(self._full()["mir"])
         return self._mir
 
     @property
     def promoted(self):
         if self._prom is None:
-            self._prom = [Mir(p) for p in self._j.get("promoted", [])]
+            self._prom = [Mir(p) for p in self._full().get("promoted", [])]
         return self._prom
 
+    def calls_any(self, *suffixes):
+        for n in self.sum_calls:
+            for s in suffixes:
+                if path_endswith(n, s):
+                    return True
+        return False
+
+    def writes_field(self, adt_suffix, field):
+        for a, f in self.sum_writes:
+            if f == field and (adt_suffix is None or path_endswith(a, adt_suffix)):
+                return True
+        return False
+
+    def builds(self, adt_suffix, variant=None):
+        for a in self.sum_aggs:
+            ad, v = a.rsplit("::", 1)
+            if path_endswith(ad, adt_suffix) and (variant is None or v == variant):
+                return True
+        return False
+
     def is_fn_like(self):
-        return self.kind in ("Fn", "AssocFn", "Closure") or self.kind.startswith("Closure")
+        return self.kind in ("Fn", "AssocFn") or self.kind.startswith("Closure")
 
     def loc(self, line=None):
         return "%s:%s" % (self.file, line if line is not None else self.line)
@@ -637,7 +674,7 @@ class Body:
 
 
 class Facts:
-    def __init__(self, recs):
+    def __init__(self, recs, loader=None):
         self.meta = {}
         self.bodies = {}
         self.adts = {}
@@ -648,7 +685,7 @@ class Facts:
             if k == "meta":
                 self.meta[r["crate"]] = r
             elif k == "body":
-                b = Body(r)
+                b = Body(r, loader)
                 self.bodies[b.id] = b
             elif k == "adt":
                 self.adts[r["id"]] = r
@@ -777,7 +814,7 @@ class Facts:
             cg = {}
             for b in self.bodies.values():
                 if b.kind in ("Fn", "AssocFn") or b.kind.startswith("Closure"):
-                    cg[b.id] = self.callees_of(b)
+                    cg[b.id] = set(b.sum_edges) if b.sum_edges is not None else self.callees_of(b)
             self._cg = cg
         return self._cg
 
@@ -811,32 +848,104 @@ class Facts:
         return [self.bodies[x] for x, ys in cg.items() if target_id in ys]
 
 
+def _summarise(r):
+    """light per-body summary from the raw JSON (no object construction)"""
+    calls, writes, aggs = set(), set(), set()
+
+    def scan(mir):
+        for b in mir["blocks"]:
+            for st in b["s"]:
+                if st["k"] == "assign":
+                    pr = st["lhs"][1]
+                    if pr and pr[-1][0] == "field":
+                        writes.add((pr[-1][2], pr[-1][4]))
+                    rv = st["rv"]
+                    if rv[0] == "aggregate" and rv[1].get("k") == "adt":
+                        aggs.add(rv[1]["adt"] + "::" + rv[1]["variant"])
+            t = b.get("t")
+            if t and t["k"] in ("call", "tailcall"):
+                c = t["callee"]
+                for k in ("name", "res_name"):
+                    if c.get(k):
+                        calls.add(strip_generics(c[k]))
+                if c.get("trait") and c.get("name"):
+                    calls.add(strip_generics(c["trait"]) + "::" + strip_generics(c["name"]).split("::")[-1])
+                if c.get("impl_self") and c.get("name"):
+                    calls.add(strip_generics(re.sub(r"^&(?:'\w+ )?(?:mut )?", "", c["impl_self"])) + "::" + strip_generics(c["name"]).split("::")[-1])
+    scan(r["mir"])
+    for p in r.get("promoted", []):
+        scan(p)
+    return sorted(calls), sorted(writes), sorted(aggs)
+
+
+def _build_index(path):
+    """Parse the facts file once; write <path>.idx (pickle) with headers + summaries + offsets."""
+    import gc
+    gc.disable()
+    try:
+        recs = []
+        offsets = {}
+        full = []
+        with open(path, "rb") as f:
+            pos = 0
+            for raw in f:
+                ln = len(raw)
+                r = json.loads(raw)
+                if r["rec"] == "body":
+                    if r["kind"].startswith("Static") and r.get("from_expansion"):
+                        pos += ln
+                        continue
+                    offsets[r["id"]] = (pos, ln)
+                    full.append(r)
+                else:
+                    recs.append(r)
+                pos += ln
+        tmpf = Facts(recs + full)
+        heads = []
+        for r in full:
+            b = tmpf.bodies[r["id"]]
+            edges = sorted(tmpf.callees_of(b)) if b.is_fn_like() else []
+            c, w, a = _summarise(r)
+            h = {k: v for k, v in r.items() if k not in ("mir", "promoted")}
+            h["sum_calls"], h["sum_writes"], h["sum_aggs"], h["sum_edges"] = c, w, a, edges
+            heads.append(h)
+        idx = {"recs": recs + heads, "offsets": offsets, "size": os.path.getsize(path)}
+        tmp = path + ".idx.tmp%d" % os.getpid()
+        with open(tmp, "wb") as f:
+            pickle.dump(idx, f, protocol=pickle.HIGHEST_PROTOCOL)
+        os.replace(tmp, path + ".idx")
+        return idx
+    finally:
+        gc.enable()
+
+
 def load_facts(paths, cache=True):
+    import gc
     recs = []
+    offs = {}
     for p in paths:
-        pk = p + ".pickle"
-        if cache and os.path.exists(pk) and os.path.getmtime(pk) >= os.path.getmtime(p):
+        idx = None
+        ip = p + ".idx"
+        if os.path.exists(ip) and os.path.getmtime(ip) >= os.path.getmtime(p):
             try:
-                with open(pk, "rb") as f:
-                    recs.extend(pickle.load(f))
-                continue
+                gc.disable()
+                with open(ip, "rb") as f:
+                    idx = pickle.load(f)
+                if idx.get("size") != os.path.getsize(p):
+                    idx = None
             except Exception:
-                pass
-        rs = []
-        with open(p) as f:
-            for line in f:
-                r = json.loads(line)
-                # drop tracing callsite statics & friends: never analysed, large
-                if r["rec"] == "body" and r["kind"].startswith("Static") and r.get("from_expansion"):
-                    continue
-                rs.append(r)
-        if cache:
-            try:
-                tmp = pk + ".tmp%d" % os.getpid()
-                with open(tmp, "wb") as f:
-                    pickle.dump(rs, f, protocol=pickle.HIGHEST_PROTOCOL)
-                os.replace(tmp, pk)
-            except Exception:
-                pass
-        recs.extend(rs)
-    return Facts(recs)
+                idx = None
+            finally:
+                gc.enable()
+        if idx is None:
+            idx = _build_index(p)
+        recs.extend(idx["recs"])
+        for k, v in idx["offsets"].items():
+            offs[k] = (p, v[0], v[1])
+
+    def loader(bid):
+        p, pos, ln = offs[bid]
+        with open(p, "rb") as f:
+            f.seek(pos)
+            return json.loads(f.read(ln))
+    return Facts(recs, loader)
